@@ -197,8 +197,7 @@ theorem rtl_error_iff {root : PPath} {comps : List Str} :
   · rintro (h | h)
     · have : comps.any badComp = true := by simpa using h
       exact ⟨.invalidPath, by simp [this]⟩
-    · have : comps.dropLast.contains [] = true := by simpa using h
-      by_cases h1 : comps.any badComp = true
+    · by_cases h1 : comps.any badComp = true
       · exact ⟨.invalidPath, by simp [h1]⟩
       · exact ⟨.invalidPath, by simp [h1, h]⟩
 
@@ -393,5 +392,14 @@ theorem fetchLoop_slice (content : Bytes) (szx : Nat) :
         List.take_append_drop]
     · simp only [hm, decide_false, Bool.false_eq_true, ↓reduceIte]
       rw [List.take_of_length_le (by omega)]
+
+/-- what `handle` answers to a GET of a regular file that is not revalidated -/
+theorem handle_get_file (cfg : Config) (req : Request) (w : World) (p : PPath)
+    (hget : req.method = .get) (hwk : req.path ≠ wellKnownCore)
+    (hacc : requestToLocalPath cfg.root req.path = .ok p) (hfile : w.stat = .file)
+    (hrev : (cfg.etags && w.etagMatches) = false) (hnt : trailingEmpty req.path = false)
+    (b : Option (Nat × Nat)) :
+    (handle cfg { req with block2 := b } w).resp = sliceBlock w.content b := by
+  simp [handle, hget, renderGet, hwk, hacc, renderGetAt, hfile, hrev, hnt]
 
 end Aiocoap.FileServer
